@@ -337,6 +337,9 @@ namespace vf
       static void apply( const ActionInput& in, States&&... /*unused*/ )
       {
          verif_event( EV_APPLY, rid< Rule >::value, off_begin( in ), off_end( in ) );
+         if( verif_veto( rid< Rule >::value, off_begin( in ), off_end( in ) ) == 2 ) {   // a void action cannot veto, but it can throw
+            throw foreign_exc{ 3000 + rid< Rule >::value };
+         }
       }
    };
 
@@ -367,6 +370,9 @@ namespace vf
       static void apply0( States&&... /*unused*/ )
       {
          verif_event( EV_APPLY0, rid< Rule >::value, 0, 0 );
+         if( verif_veto( rid< Rule >::value, 0, 0 ) == 2 ) {
+            throw foreign_exc{ 3000 + rid< Rule >::value };
+         }
       }
    };
 
@@ -494,6 +500,32 @@ namespace vf
       vstate& operator=( const vstate& ) = delete;
 
       ~vstate()
+      {
+         verif_event( EV_STATE_DTOR, ID, 0, 0 );
+      }
+
+      template< typename ParseInput, typename... States >
+      void success( const ParseInput& in, States&&... /*unused*/ )
+      {
+         verif_event( EV_STATE_SUCCESS, ID, in.byte(), first_sid< States... >::value );
+      }
+   };
+
+   // a state that is ONLY default-constructible (selects the second branch of state<> / change_state / change_action_and_state)
+   template< int ID >
+   struct vstate_d
+   {
+      static constexpr int id = ID;
+
+      vstate_d()
+      {
+         verif_event( EV_STATE_CTOR, ID, 0, 0 );
+      }
+
+      vstate_d( const vstate_d& ) = delete;
+      vstate_d& operator=( const vstate_d& ) = delete;
+
+      ~vstate_d()
       {
          verif_event( EV_STATE_DTOR, ID, 0, 0 );
       }
